@@ -487,9 +487,11 @@ theorem lastTake_eq (s : BState) (c : ConnId) {b bq : BSess} {out : Message} (hp
   unfold lastTake
   split
   · exact ⟨bq, rfl, e2, by simp [outLen, e1]⟩
-  · refine ⟨_, rfl, e2, ?_⟩
-    simp only [outLen, savePacket_outgoing, nextID_outgoing, e1]
-    exact length_save_le _ _
+  · split
+    · exact ⟨_, rfl, e2, by simp [outLen, e1]⟩
+    · refine ⟨_, rfl, e2, ?_⟩
+      simp only [outLen, savePacket_outgoing, MemorySession.freshID_outgoing, e1]
+      exact length_save_le _ _
 
 /-- what the dying dequeuer leaves behind, followed by marking the connection closed -/
 theorem lastDequeue_dead {s : BState} {c : ConnId} {x x' : BConn} {s1 : BState} (hI : Inv s)
@@ -531,7 +533,7 @@ theorem kill_post {s : BState} {c : ConnId} {s' : BState} (hI : Inv s) (hk : Kil
     · rw [conn?_setConn_same] at hx'; cases hx'; rfl
     · rcases lastDequeue_cases h1 with rfl | ⟨_, _, b, out, bq, _, _, rfl⟩
       · rfl
-      · unfold lastTake; split <;> simp
+      · unfold lastTake; split <;> (try split) <;> simp
   | dead x s1 s2 hx ha h1 hst hw e =>
     obtain ⟨i1, i2, i3⟩ := lastDequeue_dead (x' := { x with alive := false, running := false })
       hI hx ha h1 rfl rfl
@@ -542,7 +544,7 @@ theorem kill_post {s : BState} {c : ConnId} {s' : BState} (hI : Inv s) (hk : Kil
     have hcfg1 : (s1.setConn c { x with alive := false, running := false }).cfg = s.cfg := by
       rcases lastDequeue_cases h1 with rfl | ⟨_, _, b, out, bq, _, _, rfl⟩
       · rfl
-      · unfold lastTake; split <;> simp
+      · unfold lastTake; split <;> (try split) <;> simp
     have hdead : ∀ x2, s2.conn? c = some x2 → x2.alive = false ∧ x2.zombie = false := by
       intro x2 hx2
       obtain ⟨x1, hx1, hv⟩ := hc.symm.conn_some hx2
@@ -620,9 +622,9 @@ theorem acceptDelivery_window {s : BState} {c : ConnId} {x : BConn} {b : BSess} 
     · simp only [outLen, e1]; simp only [outLen] at hw; omega
     · rw [retake_zombie]; exact hz
   · unfold finishQ12
-    have hl : outLen { bq with sess := (bq.sess.nextID.2).savePacket .outgoing (.publish m false id) }
+    have hl : outLen { bq with sess := (bq.sess.freshID.2).savePacket .outgoing (.publish m false id) }
         ≤ outLen b + 1 := by
-      simp only [outLen, savePacket_outgoing, nextID_outgoing, e1]
+      simp only [outLen, savePacket_outgoing, MemorySession.freshID_outgoing, e1]
       exact length_save_le _ _
     refine hI.update hx hb (Or.inl ha) (retake_sref _) e2 (fun _ => ?_) ?_ (fun _ => ?_)
     · rw [tok_retake]
